@@ -78,6 +78,42 @@ class SerFault(Exception):
     pass
 
 
+class ChainedError(UserError):
+    """Raised `from` another exception, inside an except block: carries __cause__ and __context__."""
+
+
+class NoArgsError(Exception):
+    """Instantiated without arguments: str() is the empty string."""
+
+
+class NonStrArgs(Exception):
+    """Several non-text arguments."""
+
+
+class CtorArgs(Exception):
+    """Cannot be re-created from its args."""
+
+    def __init__(self, code, detail):
+        Exception.__init__(self, "%s/%s" % (code, detail))
+        self.code = code
+        self.detail = detail
+
+
+class SlotsError(Exception):
+    """Instances accept no new attributes."""
+    __slots__ = ()
+
+
+class LongTextError(Exception):
+    def __str__(self):
+        return "long text " + "é" * 100000
+
+
+class Outer(object):
+    class NestedError(LookupError):
+        """__qualname__ differs from __name__."""
+
+
 POOL = {
     "ValueError": ValueError,
     "KeyError": KeyError,
@@ -101,6 +137,15 @@ POOL = {
     "CancelledError": asyncio.CancelledError,
     "UserBase": UserBase,
     "BadStrBase": BadStrBase,
+    "ExceptionGroup": ExceptionGroup,
+    "ChainedError": ChainedError,
+    "NoArgsError": NoArgsError,
+    "NonStrArgs": NonStrArgs,
+    "CtorArgs": CtorArgs,
+    "SlotsError": SlotsError,
+    "LongTextError": LongTextError,
+    "NestedError": Outer.NestedError,
+    "UnicodeDecodeError": UnicodeDecodeError,
 }
 
 
@@ -111,6 +156,24 @@ def make(name, tag):
         if cls is FileNotFoundError:
             return cls(2, "missing %s" % tag)
         return cls(13, "os failure %s" % tag)
+    if cls is ExceptionGroup:
+        return ExceptionGroup("boom %s" % tag, [ValueError("member a"), KeyError("member b")])
+    if cls is ChainedError:
+        try:
+            try:
+                raise KeyError("root cause %s" % tag)
+            except KeyError as k:
+                raise ChainedError("boom %s" % tag) from k
+        except ChainedError as e:
+            return e
+    if cls is NoArgsError:
+        return cls()
+    if cls is NonStrArgs:
+        return cls(7, {"tag": tag}, None)
+    if cls is CtorArgs:
+        return cls(42, tag)
+    if cls is UnicodeDecodeError:
+        return cls("utf-8", b"\xff" + str(tag).encode("ascii", "replace"), 0, 1, "invalid start byte")
     return cls("boom %s" % tag)
 
 
